@@ -57,6 +57,8 @@ def check_case(c, tier, R):
             data = st[1]
             ok, why = CM.model_reads(c.T, data, c.v)
             feats = feats | {'encoder_output_ok' if ok else 'encoder_output_bad'}
+            if not ok:
+                feats = feats | c.kf('ber', data, defMode, ch)
             d = CM.decode_to_abs('ber', data, c.T, c.spec)
             if d[0] == 'exc':
                 R.violation('decode.error', rec, CM.exc_text(d[1]) + ' on ' + data[:40].hex(),
